@@ -125,7 +125,11 @@ inductive Outcome where
   | saved (s : SSess) (fresh : Bool) (cookieAge : Int)   -- `fresh`: a new session; a server-side id must be new
   | refused (e : SErr)                       -- `save` throws; nothing changes
 
-def tooLong (d : SData) : Bool := d.any fun p => decide (p.1.length ≥ 1024) || decide (p.2.1.length ≥ 2097152)
+/-- some key has 1024 bytes or more, or its (visible) value has 2 MiB or more -/
+def tooLong (d : SData) : Bool :=
+  d.any fun p => match lookup p.1 d with
+    | some (v, _) => decide (p.1.length ≥ 1024) || decide (v.length ≥ 2097152)
+    | none => false
 
 /-- the decision of `save`, in terms of the session the token denoted (`cur`) and the working copy -/
 def decideSave (df : Defaults) (cur : Option SSess) (w : Work) (now : Int) : Outcome :=
